@@ -147,7 +147,7 @@ pub fn check(_ctx: &Ctx, input: &Input) -> CaseResult {
 fn run(ctx: &Ctx) {
     let plans = [GenPlan {
         gen: "full-nobig",
-        cases: ctx.tier.pick(30_000, 600_000),
+        cases: ctx.tier.pick(300_000, 3_000_000),
         min_len: 0,
         max_len: ctx.tier.pick(1500, 3000),
     }];
